@@ -84,3 +84,33 @@ PROPS.update({
         "assumptions": ["the injected reader error is a distinct sentinel; bufio.ErrTooLong is recognised with errors.Is"],
     },
 })
+
+TB_JSON = [
+    "Coq 8.16.1 kernel and its vm_compute evaluator (no native_compute)",
+    "Layer 0 executable specification of encoding/json as jsonline uses it (coq/std/GoJson.v, GoJsonStrict.v, GoJsonMarshal.v: utf8.DecodeRune, string unquoting and escaping with HTML escaping, scanner number states, Decoder.Token state machine with UseNumber, json.Marshal of the parsed tree, the 10000 nesting limit of compact()), hand-written from go1.23.5 and validated against the installed Go on every run by stream json (tokens, clean-EOF flag, accept/reject, output bytes, json.Marshal of every string)",
+    "hand model of row.UnmarshalJSON/parseobject/parsearray/handledelim over the token list (coq/std/GoJson.v part A.5), validated by the same stream",
+    "reference grammar `spells` (coq/std/GoJson.v part B.1): RFC 8259 over well-formed strings, read by a human; its recogniser is proved equivalent (JsonRec.v) and compared with the harness's own Go recogniser on every line",
+    "correspondence harness (/verif/harness: json_stream.go, json_gen.go, json_ref.go) and the Go toolchain that builds it from /repo's working tree",
+]
+JSON_RULE = "json stream: lines = documents generated from the RFC 8259 grammar (depth up to 64, every escape spelling, surrogate pairs, raw 1-4 byte UTF-8, number spellings -0 1E+2 0.10 30-digit 1e-400, insignificant whitespace, keys over all Unicode classes, duplicate names ~8%) and malformed lines (1-3 byte insert/delete/replace over the structural alphabet plus control and non-UTF-8 bytes, truncation at every offset of sample documents, trailing content, empty line, non-object values, literal prefixes, lone surrogates, bad escapes, separator errors, bracket mismatches, 10000 unclosed brackets) plus rows built through the API with hostile keys and unmarshalable values; a case is distinct by its bytes and non-trivial when it is not empty"
+
+PROPS.update({
+    "C16": {
+        "streams": [{"name": "json"}],
+        "rule": JSON_RULE,
+        "trusted_base": TB_JSON,
+        "assumptions": ["hypothesis no_substitution of parse_iff: lines on which encoding/json substitutes U+FFFD inside a string (ill-formed UTF-8, lone surrogate escapes) are outside the equivalence, as in the property text; completeness and the reject direction need no hypothesis"],
+    },
+    "C01": {
+        "streams": [{"name": "json"}],
+        "rule": JSON_RULE,
+        "trusted_base": TB_JSON,
+        "assumptions": ["strings are strings of bytes (0..255): hypothesis jv_bytes_ok / bytes_ok"],
+    },
+    "C02": {
+        "streams": [{"name": "json"}],
+        "rule": JSON_RULE,
+        "trusted_base": TB_JSON,
+        "assumptions": ["member values nested at most 10000 deep for the row.MarshalJSON form (encoding/json refuses to re-scan deeper Marshaler output); no bound for the reader"],
+    },
+})
